@@ -5,7 +5,7 @@
    statements of Spec.v:  Blocks P src out  =  out consists of one block per element of src, in order,
    element i of block k at index offs k + i and related to the source element by P k. *)
 From Coq Require Import ZArith List Bool Arith Lia.
-From PV Require Import Base.NpSearch C12.Model C12.Spec C12.Proofs C12.Proofs2 C12.Proofs3 C12.Proofs4.
+From PV Require Import Base.NpSearch C12.Model C12.Spec C12.Proofs C12.Proofs2 C12.Proofs3 C12.Proofs4 C12.Proofs5.
 Import ListNotations.
 Open Scope Z_scope.
 
@@ -118,6 +118,23 @@ Theorem C12_index_tables : forall (A R : Type) (zero : A) (unit : Z) (ps : list 
   TableShift (coffZ ps) (map p_pc ps) (m_pc m) /\ TableShift (toffZ ps) (map p_tf ps) (m_tf m).
 Proof. exact (@merge_index_tables). Qed.
 Print Assumptions C12_index_tables.
+
+(* what the shift is for: the merged entry for (probe k, template t, column j) is coff_k + v, and merged
+   channel coff_k + v is channel v of probe k: labelled k, at the probe's position translated by dx_k *)
+Theorem C12_index_tables_point_home : forall (A R : Type) (zero : A) (unit : Z) (ps : list (probe A R)) m,
+  merge_side zero unit ps = Some m ->
+  (forall p, In p ps -> length (p_tf p) = length (p_tmpl p)) ->
+  (forall p, In p ps -> length (p_pos p) = length (p_cm p)) ->
+  NoWrap (coffZ ps) (map p_pc ps) -> NoWrap (toffZ ps) (map p_tf ps) ->
+  exists dxs, length dxs = length ps /\ nth 0 dxs 0 = 0 /\
+  forall k p t row j v cmv q, nth_error ps k = Some p -> nth_error (p_pc p) t = Some row -> nth_error row j = Some v ->
+    nth_error (p_cm p) (Z.to_nat v) = Some cmv -> nth_error (p_pos p) (Z.to_nat v) = Some q -> 0 <= v ->
+    exists orow, nth_error (m_pc m) (offs (map (fun p => length (p_pc p)) ps) k + t) = Some orow /\
+      nth_error orow j = Some (coffZ ps k + v) /\
+      nth_error (m_probe m) (Z.to_nat (coffZ ps k + v)) = Some (Z.of_nat k) /\
+      nth_error (m_pos m) (Z.to_nat (coffZ ps k + v)) = Some (shift_x (nth k dxs 0) q).
+Proof. exact (@merge_pc_points_home). Qed.
+Print Assumptions C12_index_tables_point_home.
 
 (* merged parameters: the common sampling rate, and the summed raw channel count *)
 Theorem C12_params : forall (A R : Type) (zero : A) (unit : Z) (ps : list (probe A R)) m (r : R),
